@@ -31,21 +31,25 @@ CLAIMED = {
         design='DESIGN.md §6 C02',
         technique="Lean 4 proof (identification with Mathlib's probability densities, finite-sum algebra) + bit-exact correspondence + mpmath/quadrature search"),
     "C18": dict(
-        text=("Kernel-checked theorems over any linearly ordered field, for all 13 univariate distributions modelled as records with their cached sub-samplers and with new / every setter / update transcribed as the exact sequence of assignments (so a panic in mid-update leaves the partial state the code leaves): a constructor succeeds exactly on the documented domain; a setter accepts iff the constructor would accept the resulting parameters, and then yields exactly the fresh object, otherwise panics leaving the object untouched; update succeeds from every reachable state iff the constructor accepts the values (in particular bounds entirely above or below the old interval) and yields the fresh object; by induction over arbitrary histories (valid and invalid values interleaved) every reachable object has in-domain parameters, every cached sub-sampler equals the one a fresh constructor would build, and the whole record equals new(current params) - hence density, mean, variance and the sample stream from any RNG state coincide with the twin's. The tie compares, after every step of generated histories (13 kinds x 100/400 seeds, 1..20 mutations), the panic flag, the whole record, pdf/mean/var at probes and 32 seeded draws against the Lean model token for token, and the oracle demands equality with a freshly constructed Rust twin, also with unrelated objects created and sampled in between. NaN parameters are out of scope (stated)."),
+        text=("Kernel-checked theorems over any linearly ordered field, for all 13 univariate distributions modelled as records with their cached sub-samplers and with new / every setter / update transcribed as the exact sequence of assignments (so a panic in mid-update leaves the partial state the code leaves): a constructor succeeds exactly on the documented domain; a setter accepts iff the constructor would accept the resulting parameters, and then yields exactly the fresh object, otherwise panics leaving the object untouched; update succeeds from every reachable state iff the constructor accepts the values (in particular bounds entirely above or below the old interval) and yields the fresh object; by induction over arbitrary histories (valid and invalid values interleaved) every reachable object has in-domain parameters, every cached sub-sampler equals the one a fresh constructor would build, and the whole record equals new(current params) - hence density, mean, variance and the sample stream from any RNG state coincide with the twin's. The tie compares, after every step of generated histories (13 kinds x 100/400 seeds, 1..20 mutations), the panic flag, the whole record, pdf/mean/var at probes and 32 seeded draws against the Lean model token for token, and the oracle demands equality with a freshly constructed Rust twin, also with unrelated objects created and sampled in between. NaN parameters are out of scope (stated)."
+              " SOURCE TIE: the validating constructors of ten distributions are regenerated from the Rust text on every run and proved equal to the record model."),
         design='DESIGN.md §6 C18',
         technique='Lean 4 proof (invariant `fresh d = some d` by induction over operation histories, 13 record state machines) + bit-exact stateful correspondence + twin-object oracle'),
     "C20": dict(
         text=('Kernel-checked theorems over R for valid parameters: the scalar RBF and rational-quadratic kernels are symmetric, equal the output variance at zero distance, are positive, never exceed the variance and are non-increasing in the distance; constructors accept exactly positive parameters; the matrix form (all four argument kinds, any r x c layout) has one row per first-argument point and one column per second-argument point and its (i,j) entry is the scalar form at (x_i, y_j) - for every scalar type in which powi a 2 = a*a, so also at Float where the oracle checks it bit for bit; Gram matrices are symmetric with diagonal = variance; and every Gram matrix is positive semi-definite (Mathlib Matrix.PosSemidef): RBF through the power-series feature map of exp(xy/l^2), rational quadratic as a Gamma scale mixture of RBF kernels. Not proved: rounding of the scalar form and PSD of the rounded Gram matrix (searched: eigenvalue bound with exact LDL^T certificate for small n). Tied bit for bit to the Rust code (scalar pairs in +-1e3, 1..60 points as Vector or Matrix, owned or borrowed, parameters in (1e-2, 1e2)).'
-              " ROUNDING (Props/Rounding5): the computed scalar RBF / rational-quadratic values are within an explicit two-sided multiplicative bound of the exact formula and positive; consecutive-call sequences (permuted, duplicated, mutated point sets) are part of the correspondence."),
+              " ROUNDING (Props/Rounding5): the computed scalar RBF / rational-quadratic values are within an explicit two-sided multiplicative bound of the exact formula and positive; consecutive-call sequences (permuted, duplicated, mutated point sets) are part of the correspondence."
+              " Matrix forms (Props/Rounding6): every Gram entry equals the scalar form at the rounded type, obeys the two-sided bound, is positive and, under the explicit hypothesis that libm exp is at most 1 on non-positive arguments, at most var(1+u)."),
         design='DESIGN.md §6 C20',
         technique='Lean 4 proof (real analysis for monotonicity, power-series / Gamma-mixture PSD argument, table lemmas over the C04/C12/C15 models) + bit-exact correspondence'),
     "C01": dict(
         text=('Kernel-checked theorems about the executable model of solve / solve_sys / invert_matrix / Matrix::solve / Matrix::inv, over any linearly ordered field (and over R with Real.sqrt): END-TO-END CORRECTNESS in exact arithmetic - whenever `solve a b` answers, A.x = b (Cholesky route: L.L^T = A and two triangular solves; LU route: P.A = L.U for every input and luSolve solves); on every non-singular input of order n >= 1 solve / solve_sys / invert_matrix never panic and return A^-1 b resp. A^-1 (Mathlib Matrix inverse), A.inv = I and inv.A = I; ROUTE INDEPENDENCE: any two valid routes return the same x; routing = Cholesky iff exactly symmetric with positive diagonal and all pivots positive, else LU, and every exactly symmetric positive-definite matrix is routed to Cholesky and factored; multi-RHS column c = single-RHS solve of column c with one route for all; inverse = solve against the identity; Matrix::solve / inv always use LU and are correct; layout conversions are mutually inverse transposes; forward/backward substitution solve T.x = b. ROUNDING (standard model fl(a op b) = (a op b)(1+d), |d| <= 2^-53, the one trusted link to IEEE arithmetic): backward-error bounds (T+dT)x = b, |dT| <= gamma_n|T| for both substitutions and the Cholesky solve for every n. and for the factorisations and `solve` itself (Props/RoundingLU): whatever solve returns satisfies (A+dA)x = b with |dA| <= gamma_(3n)|L||U| (LU route; norm-wise gamma_(3n) n ||U||) resp. gamma_(3n+1)|L||L^T| (Cholesky route), with residual corollaries. Not proved: a bound on the pivoting growth factor, hence the residual in the ||A||-form of the property, which is decided per run by the bit-exact tie on all six entry points (orders 1..32, all matrix classes incl. adversarial-pivot and sparse-SPD classes, 1..6 right-hand sides) plus an exact big-integer residual oracle ||A X - B|| <= 200 n eps (||A|| ||X|| + ||B||), A.A^-1 = I, and route/entry-point agreement.'
-              " SOURCE TIE: the substitution, LU and Cholesky routines under every solve route are regenerated from the Rust text on every run and proved equal to the hand model."),
+              " SOURCE TIE: the substitution, LU and Cholesky routines under every solve route are regenerated from the Rust text on every run and proved equal to the hand model."
+              " solve, solve_sys and invert_matrix (routing and per-column loop) are regenerated from utils.rs and proved equal to the model. ROUNDING (Props/Rounding6): norm-wise residual per component, LU route with the growth factor explicit and unbounded, Cholesky route unconditionally."),
         design='DESIGN.md §6 C01',
         technique='Lean 4 proof (loop invariants for LU and Cholesky, P.A = L.U, L.L^T = A, solve correctness and totality via Mathlib Matrix, standard-model rounding bounds) + bit-exact correspondence + exact residual oracle'),
     "C03": dict(
-        text=("Kernel-checked theorems: inverse-CDF laws over R for Exponential, Pareto, Gumbel, Uniform (F(sample u) = u or 1-u for every u in (0,1)) and Bernoulli; exact characterisations of the Poisson multiplication method (returns k iff the running product of uniforms first drops to e^-lambda at k) and of binomial inversion (walks C(n,x)p^x q^(n-x), returns the generalised inverse CDF, result <= n, for every n); textbook compositions (ChiSquared = Gamma(k/2, 1/2), Beta = X/(X+Y) in draw order incl. the underflow branch, T formula, MVN = mu + L z via the C05 product theorem, binomial flip, regime routing, Gamma boost below shape 1); support and shape (Pareto >= x_m, Exponential >= 0, Uniform in [a,b], Gamma > 0, counts >= 0, sample_n length and consecutive draws, sample_matrix / MVN shapes); the three 128-entry Ziggurat tables regenerated from the source are exactly consistent (K, Y, W, R relations in rational arithmetic), so editing one entry breaks a proof. SUPPORT of the rejection samplers (Props/C03Support): Poisson draws (multiplication and PTRS) are naturals for every rate, Binomial draws (inversion, BTPE, flip) are naturals <= n for every n and p, Beta in [0,1], Ziggurat accepting branches return mu +- x sigma with real x >= 0. PARTIAL: the laws of the rejection samplers (Ziggurat, Marsaglia-Tsang and hence beta/chi-squared/t, PTRS, BTPE), loop termination and RNG quality are not provable here; they are decided by the bit-exact tie of 2000-draw streams + final RNG state for every distribution x regime x seed and by the property's own DKW criterion (alpha = 1e-12, n = 2e5 quick / 4e6 thorough) against scipy CDFs. Two open findings are listed in known_findings.txt."),
+        text=("Kernel-checked theorems: inverse-CDF laws over R for Exponential, Pareto, Gumbel, Uniform (F(sample u) = u or 1-u for every u in (0,1)) and Bernoulli; exact characterisations of the Poisson multiplication method (returns k iff the running product of uniforms first drops to e^-lambda at k) and of binomial inversion (walks C(n,x)p^x q^(n-x), returns the generalised inverse CDF, result <= n, for every n); textbook compositions (ChiSquared = Gamma(k/2, 1/2), Beta = X/(X+Y) in draw order incl. the underflow branch, T formula, MVN = mu + L z via the C05 product theorem, binomial flip, regime routing, Gamma boost below shape 1); support and shape (Pareto >= x_m, Exponential >= 0, Uniform in [a,b], Gamma > 0, counts >= 0, sample_n length and consecutive draws, sample_matrix / MVN shapes); the three 128-entry Ziggurat tables regenerated from the source are exactly consistent (K, Y, W, R relations in rational arithmetic), so editing one entry breaks a proof. SUPPORT of the rejection samplers (Props/C03Support): Poisson draws (multiplication and PTRS) are naturals for every rate, Binomial draws (inversion, BTPE, flip) are naturals <= n for every n and p, Beta in [0,1], Ziggurat accepting branches return mu +- x sigma with real x >= 0. PARTIAL: the laws of the rejection samplers (Ziggurat, Marsaglia-Tsang and hence beta/chi-squared/t, PTRS, BTPE), loop termination and RNG quality are not provable here; they are decided by the bit-exact tie of 2000-draw streams + final RNG state for every distribution x regime x seed and by the property's own DKW criterion (alpha = 1e-12, n = 2e5 quick / 4e6 thorough) against scipy CDFs. Two open findings are listed in known_findings.txt."
+              " SOURCE TIE: the sample() bodies of the exponential, Gumbel, Pareto and uniform samplers are regenerated from the Rust text on every run and proved equal to the model as functions of the draw."),
         design='DESIGN.md §6 C03',
         technique='Lean 4 proof (inverse-CDF algebra over R, loop characterisations, exact table arithmetic) + bit-exact stream correspondence + DKW search'),
     "C09": dict(
@@ -59,17 +63,20 @@ CLAIMED = {
         technique='Lean 4 proof (loop-to-iterate refinement, LM descent invariant, chain rule over commutative rings) + bit-exact trajectory correspondence'),
     "C11": dict(
         text=("Kernel-checked theorems about the models of lu / cholesky / substitutions / det (slice level and Matrix level): CHOLESKY - whenever cholesky returns l it is lower triangular with positive diagonal and L.L^T = A; every exactly symmetric positive-definite matrix is factored (completeness, uniqueness of the factor); the sweep rejects exactly at a diagonal cell whose pivot is <= 0 and non-symmetric input panics; LU - for EVERY square input over an ordered field the pivot vector is a permutation, P.A = L.U (with the exact residual identity and the necessary-and-sufficient condition over general fields), every multiplier satisfies |l_ij| <= 1 and is 0 under a zero pivot; prod diag U = det(P.A), pivots all non-zero iff det != 0; DETERMINANT - ipiv_parity returns Mathlib's Equiv.Perm.sign of the pivot permutation for every size (never diverges, panics exactly on non-permutations), so det = sign . prod diag U; Matrix-level lu, lu_solve, cholesky, substitutions equal the slice-level ones; triangular solves invert triangular systems. ROUNDING (standard model): |L L^T - A| <= gamma_(n+1)|L||L^T| and |L U - P A| <= gamma_n|L||U| for the computed factors, multipliers <= 1 under monotone rounding. Not proved: the growth factor behind the oracle's norm-wise tolerance - decided per run by the bit-exact tie and exact big-integer oracles (||PA - LU||, ||LL^T - A|| within c n eps ||A||, |L| <= 1, permutation, exact determinants of integer matrices by Bareiss, indefinite input rejected, Matrix = slice bit for bit)."
-              " SOURCE TIE: forward/backward substitution, lu, lu_solve, try_cholesky, cholesky and cholesky_solve are regenerated from the Rust text on every run (in-place mutation loops translated to folds) and proved equal to the hand model."),
+              " SOURCE TIE: forward/backward substitution, lu, lu_solve, try_cholesky, cholesky and cholesky_solve are regenerated from the Rust text on every run (in-place mutation loops translated to folds) and proved equal to the hand model."
+              " ROUNDING (Props/Rounding6): every entry of |L||L^T| of the computed Cholesky factor is at most max a_ii/(1-gamma_(n+1))."),
         design='DESIGN.md §6 C11',
         technique='Lean 4 proof (column-loop invariant for P.A = L.U, Cholesky sweep invariant, cycle-shortening invariant for parity = Equiv.Perm.sign) + bit-exact correspondence + exact reconstruction oracle'),
     "C13": dict(
         text=('Kernel-checked theorems over an ordered field: acovf/acf equal the biased-estimator sums, are even in the lag (for any scalar type), acf(0) = 1 for non-zero variance, |acf k| <= 1 (Cauchy-Schwarz), lags |k| >= n give 0; difference o cumsum; AR fit: intercept = mean and, given an exact inverse of the Toeplitz matrix, the coefficients satisfy the Yule-Walker equations; predict_one / predict equal mean + the AR recursion on the mean-centred history for every history length; fit and forecasts are shift-equivariant (series + c gives every forecast + c). With the proved solver correctness the Yule-Walker statement holds unconditionally for a non-singular Toeplitz matrix. Forecasts converge to the series mean whenever sum|phi_j| < 1 (explicit geometric bound) and whenever all roots of the characteristic polynomial lie inside the unit disc (Gelfand formula on the companion matrix; Props/C13Conv). Float-level (standard model): acovf error bound with a provably necessary first-order mean term for lag k > 0, |acf| <= 1 + gamma, |acf(0) - 1| <= gamma_4. PARTIAL: that a fit is stationary, and convergence of forecasts to the mean and rounding are decided by the bit-exact tie plus exact-integer / 240-bit mpmath oracles with a-priori rounding bounds, paired shifted runs and a horizon-1000 convergence check.'
-              " ROUNDING (Props/Rounding5): the one-step forecast is within gamma_(p+3)(|c| + sum|phi_j||x_j - c|) of the exact AR recursion; difference is exact up to one rounding per entry."),
+              " ROUNDING (Props/Rounding5): the one-step forecast is within gamma_(p+3)(|c| + sum|phi_j||x_j - c|) of the exact AR recursion; difference is exact up to one rounding per entry."
+              " ROUNDING end to end (Props/Rounding6): residual bound of the Toeplitz Yule-Walker system of the computed autocorrelations."),
         design='DESIGN.md §6 C13',
         technique='Lean 4 proof (finite-sum algebra, Cauchy-Schwarz, recursion by induction over the horizon) + bit-exact correspondence'),
     "C14": dict(
         text=("Kernel-checked theorems over any (ordered) field: predict is Horner = sum c_i x^i for every coefficient list; vandermonde entry V[i,j] = x_i^j; given an exact inverse of V^T V the fitted coefficients satisfy the normal equations, i.e. the residual is orthogonal to every power x^0..x^d; rss c' = rss c + ||V(c' - c)||^2 >= rss c for every other c' (minimality); data generated by a polynomial of the degree are reproduced. With the proved solver correctness these hold unconditionally (and `fit` does not panic) whenever the normal matrix is non-singular. PARTIAL: rounding is decided by the bit-exact tie plus an exact-rational oracle (orthogonality residual scaled by cond(V^T V) eps, perturbation test, exact-integer reproduction)."
-              " ROUNDING in the standard model (Props/Rounding5): every entry of predict is within gamma_(2n) sum|a_i||x|^i of the polynomial value (Horner)."),
+              " ROUNDING in the standard model (Props/Rounding5): every entry of predict is within gamma_(2n) sum|a_i||x|^i of the polynomial value (Horner)."
+              " ROUNDING end to end (Props/Rounding6): the computed coefficients satisfy a residual bound of the computed normal system in terms of the computed Cholesky/LU factors and the computed Vandermonde matrix."),
         design='DESIGN.md §6 C14',
         technique='Lean 4 proof (normal equations and Pythagoras over fields via Mathlib Matrix) + bit-exact correspondence + exact-rational oracle'),
     "C04": dict(
@@ -93,7 +100,8 @@ CLAIMED = {
               "the non-TT flags); xtx = X^T X and symmetric; ROUNDING in the standard model: every entry of matmul / matmul_blocked / xtx / the Dot methods is within gamma_l sum_k|a_ik||b_kj| of the definition; the 16 Dot impls x 4 ownership forms are checked by `decide` over a wiring table regenerated "
               "from dot.rs on every run. The model is tied bit for bit to the Rust code on all shapes 1..9^3 x flags x block sizes (integer entries, exact "
               "equality oracle) and random real shapes to 64 (exact dyadic oracle with the rigorous l*2^-52*sum|a||b| bound)."
-              " SOURCE TIE: the naive i/k/j product loops of matmul are regenerated from utils.rs on every run and proved equal to the model loop nest; sessions with aliased operands (same slice / same object on both sides, overlapping views, in-place mutation and re-allocation between calls) are part of the correspondence."),
+              " SOURCE TIE: the naive i/k/j product loops of matmul are regenerated from utils.rs on every run and proved equal to the model loop nest; sessions with aliased operands (same slice / same object on both sides, overlapping views, in-place mutation and re-allocation between calls) are part of the correspondence."
+              " The whole matmul and matmul_blocked functions are likewise regenerated and proved equal to the model (cfg blocks resolved with the default features)."),
         design="DESIGN.md §6 C05",
         technique="Lean 4 proof (loop-nest projection, Finset sums over CommSemiring, decide over translated wiring) + bit-exact correspondence"),
     "C06": dict(
@@ -126,7 +134,8 @@ CLAIMED = {
               "is a separate theorem); min/max equal List.minimum/maximum on NaN-free input; Matrix argmin = (i / ncols, i % ncols); histogram centres are midpoints of "
               "consecutive edges; rounding bounds in the standard model for both mean algorithms (mean within gamma_n, Welford mean ~ (n/2+6.5) u max|x|), for the two-pass covariance/variance (gamma_(n+5) times an exactly shift-invariant centred scale plus second-order terms in the means) and for the Welford M2 / var (whose bound provably must contain a mean term). PARTIAL: rounding of the one-pass and online covariance is decided by the bit-exact tie plus an exact-rational oracle with a "
               "condition-number-scaled bound, not by proof."
-              " ROUNDING (Props/Rounding5): forward error bound of the one-pass covariance exhibiting its cancellation term; accumulation bound for the online algorithm."),
+              " ROUNDING (Props/Rounding5): forward error bound of the one-pass covariance exhibiting its cancellation term; accumulation bound for the online algorithm."
+              " The online covariance is bounded in full (Props/Rounding6 online_error)."),
         design="DESIGN.md §6 C08",
         technique="Lean 4 proof (loop invariants by induction over the data list, field_simp/ring) + bit-exact correspondence + exact-rational oracle"),
     "C12": dict(
